@@ -70,6 +70,10 @@ func refRelation(s string) bool {
 }
 
 func checkValidators(run *core.Run, s string) {
+	run.Guard(&core.Case{Kind: "string", Text: s}, func() { checkValidators1(run, s) })
+}
+
+func checkValidators1(run *core.Run, s string) {
 	c := &core.Case{Kind: "string", Text: s}
 	r := validateAll(s)
 	run.Eval(9)
